@@ -191,6 +191,12 @@ pub fn profile_for(prop: &str, rng: &mut Rng, cfg: BuildCfg) -> Profile {
         "C07" => {
             w[OPK_QUERY] += 40;
             w[OPK_MINT] += 4;
+            // a second world to run the same loop on from inside the closure (cross-world nesting)
+            if rng.chance(1, 3) {
+                f.fork = true;
+                w[OPK_CLONE] += 4;
+                w[OPK_SWITCH] += 3;
+            }
         }
         "C08" => {
             w[OPK_CYCLE] += 15;
